@@ -47,6 +47,8 @@ struct ghost {
   int child_fate_errno;
   int reaps;          /* successful reaps                                     */
   int wait_calls, kill_calls, fork_calls;
+  int eintr_run;      /* consecutive EINTR answers given to the current retry loop */
+  bool wait_eintr;    /* the last waitpid was interrupted */
   int fork_stage;     /* 0: no fork; 1: forked, process_fork's report pending;
                          2: process_start's report pending; 3: both read */
   int sig_log[4];     /* signals delivered to the child, in order             */
